@@ -500,7 +500,7 @@ add(Contract(
 # current position; a chosen packet is stored in this reference's slot and parses at the current position.
 add(Contract(
     'role:FIELD._compile', role=True,
-    params={'f': 'ref:Field', 'position': 'int', 'fields': 'dyn', 'bisturi_conf': 'dyn'},
+    params={'f': 'ref:Field', 'position': 'int', 'fields': 'dyn', 'bisturi_conf': 'conf'},
     ensures=["f.field_name == old(f.field_name)"], raises={'OtherException*': []},
     modifies=['f.*'], allocates=True, returns='dyn'))
 
@@ -585,6 +585,13 @@ add(Contract(
         # fresh copy of the prototype, sharing nothing mutable with the declaration or with other packets
         "implies(not (self.field_name in old(defaults)) and (isinst(self.prototype, 'Prototype') or isinst(self.default, 'Prototype')),"
         "        isprim(slot(packet, self.field_name)) or deep_fresh(slot(packet, self.field_name)))",
+        # a reference with a run-time selector and a plain default object (e.g. a packet given as default=): like every
+        # field, an immutable default is used as it is and anything else is copied - never shared between packets
+        "implies(not (self.field_name in old(defaults)) and not isinst(self.prototype, 'Prototype') and not isinst(self.default, 'Prototype')"
+        "        and (isint(self.default) or isnone(self.default) or isbytes(self.default)), same(slot(packet, self.field_name), self.default))",
+        "implies(not (self.field_name in old(defaults)) and not isinst(self.prototype, 'Prototype') and not isinst(self.default, 'Prototype')"
+        "        and not (isint(self.default) or isnone(self.default) or isbytes(self.default) or isstr(self.default)),"
+        "        fresh_since(slot(packet, self.field_name)))",
     ],
     raises={'AssertionError': ["not isinst(self.prototype, 'Prototype') and not iscallable(self.prototype)"],
             'OtherException*': []},       # unpickling the prototype failed
@@ -600,3 +607,58 @@ add(Contract(
         "        hasslot(packet, self.I.field_name) and isint(slot(packet, self.I.field_name))"
         "        and intval(slot(packet, self.I.field_name)) == 0)"],
     modifies=['slot(packet, self.field_name)', 'slot(packet, self.I.field_name)']))
+
+# ---------------------------------------------------------------- how a declared field enters the field table (C10, C17)
+_POSITIONING = dict(params={'self': 'ref:Field', 'position': 'dyn', 'reference': 'dyn'},
+                    raises={'AssertionError': ["not (reference == 'innermost-pkt' or reference == 'begins' or reference == 'current-offset')"]},
+                    modifies=['self.move_arg', 'self.reference', 'self.is_alignment'], returns='ref:Field')
+add(Contract('field:Field.at', defaults={'reference': "'innermost-pkt'"},
+             ensures=["same(result, self)", "same(self.move_arg, position)", "same(self.reference, reference)", "same(self.is_alignment, False)"],
+             **_POSITIONING))
+add(Contract('field:Field.aligned', params={'self': 'ref:Field', 'to': 'dyn', 'reference': 'dyn'}, defaults={'reference': "'begins'"},
+             ensures=["same(result, self)", "same(self.move_arg, to)", "same(self.reference, reference)", "same(self.is_alignment, True)"],
+             raises=_POSITIONING['raises'], modifies=_POSITIONING['modifies'], returns='ref:Field'))
+add(Contract('field:Field.shift', params={'self': 'ref:Field', 'position': 'dyn'},
+             ensures=["same(result, self)", "same(self.move_arg, position)", "same(self.reference, 'current-offset')", "same(self.is_alignment, False)"],
+             modifies=_POSITIONING['modifies'], returns='ref:Field'))
+
+add(Contract(
+    'structural_fields:Move.__init__',
+    params={'self': 'ref:Move', 'move_arg': 'dyn', 'reference': 'dyn', 'is_alignment': 'dyn'},
+    ensures=["same(self.move_arg, move_arg)", "same(self.reference, reference)", "same(self.is_alignment, is_alignment)",
+             "isnone(self.descriptor)", "not self.is_fixed"],
+    modifies=['self.*']))
+
+# Field._describe_yourself: the entries a declared field contributes to the field table.  The last entry is the field
+# itself UNDER THE NAME IT STORES ITS VALUE IN (the hidden name "_described_<name>" for a described field, whose
+# descriptor is told both names); a positioned / aligned field is preceded by its Move pseudo-field.
+add(Contract(
+    'field:Field._describe_yourself',
+    params={'self': 'ref:Field', 'field_name': 'str', 'bisturi_conf': 'conf'},
+    requires=["isnone(self.descriptor) or isinst(self.descriptor, 'Auto')"],
+    ensures=[
+        "len(result) == ite(isnone(self.move_arg), 1, 2)",
+        # the table name of the field is the name of the slot the field reads and writes
+        "istuple(result[len(result) - 1], 2) and tupitem(result[len(result) - 1], 2, 0) == self.field_name"
+        " and same(tupitem(result[len(result) - 1], 2, 1), self)",
+        "implies(isnone(self.descriptor), self.field_name == field_name)",
+        "implies(not isnone(self.descriptor), self.field_name == strfmt('_described_%s', field_name)"
+        "        and self.descriptor_name == field_name"
+        "        and asref(self.descriptor, 'Auto').descriptor_name == field_name"
+        "        and asref(self.descriptor, 'Auto').real_field_name == self.field_name)",
+        # positioning: a Move pseudo-field with the declared target, reference and kind goes first
+        "implies(not isnone(self.move_arg), istuple(result[0], 2) and isinst(tupitem(result[0], 2, 1), 'Move')"
+        "        and fresh_since(tupitem(result[0], 2, 1))"
+        "        and tupitem(result[0], 2, 0) == strfmt('_shift_to_%s', self.field_name)"
+        "        and asref(tupitem(result[0], 2, 1), 'Move').field_name == strfmt('_shift_to_%s', self.field_name)"
+        "        and same(asref(tupitem(result[0], 2, 1), 'Move').move_arg, self.move_arg)"
+        "        and same(asref(tupitem(result[0], 2, 1), 'Move').reference, self.reference)"
+        "        and same(asref(tupitem(result[0], 2, 1), 'Move').is_alignment, self.is_alignment))",
+        # the class-wide 'align' option positions every field that is not positioned by itself
+        "implies(isnone(old(self.move_arg)) and 'align' in bisturi_conf,"
+        "        same(self.move_arg, bisturi_conf['align']) and same(self.reference, 'begins') and same(self.is_alignment, True))",
+        "implies(not (isnone(old(self.move_arg)) and 'align' in bisturi_conf), same(self.move_arg, old(self.move_arg)))",
+    ],
+    modifies=['self.field_name', 'self.descriptor_name', 'self.move_arg', 'self.reference', 'self.is_alignment',
+              "asref(self.descriptor, 'Auto').descriptor_name", "asref(self.descriptor, 'Auto').real_field_name"],
+    allocates=True, returns='list'))
